@@ -100,6 +100,13 @@ fn run() {
             last_change = now;
             candidate = None;
             cpu_at_change = cpu_now;
+            // the call moved on after a certified deadlock was broken (its descendants were killed): should it get stuck
+            // again later in the same call, that is looked at afresh
+            if let Some(t) = certified_at {
+                if now > t {
+                    certified_at = None;
+                }
+            }
         } else if !ilog::overflowed() {
             // no event at all: is the subject nevertheless burning CPU?  (3 s of CPU time without one system call,
             // measured between two samples that both saw the same registered subject threads)
